@@ -239,6 +239,9 @@ def demand(case):
     return ('refuse', {'err': 'err', 'msg': 'msg', None: 'silent'}[kw.get('explain_minimums', 'err')])
 
 
+_GRADERS = {}
+
+
 def observe(case):
     """run grader(None, sub) on the implementation; canonical observation"""
     from mitxgraders import StringGrader
@@ -246,9 +249,15 @@ def observe(case):
     kw = dict(case['config'])
     if case.get('expect') is not None:
         kw['answers'] = case['expect']
-    st, g = core.guarded(StringGrader, **kw)
-    if st != 'ret':
-        return ('construct-failed', repr(g))
+    key = repr(sorted(kw.items(), key=repr))
+    g = _GRADERS.get(key)
+    if g is None:
+        st, g = core.guarded(StringGrader, **kw)
+        if st != 'ret':
+            return ('construct-failed', repr(g))
+        if len(_GRADERS) > 64:
+            _GRADERS.clear()
+        _GRADERS[key] = g
     st, out = core.guarded(g, None, case['sub'])
     if st == 'ret':
         if isinstance(out, dict) and set(out) == {'ok', 'grade_decimal', 'msg'}:
@@ -563,6 +572,31 @@ def run_match(ctx, res, rng, scale):
     emit(cases, res, 'c18_match', 'call_case', shard=max(200, len(cases) // 12 + 1))
 
 
+def run_small_scope(ctx, res, rng, scale):
+    """exhaustive: every string of length <= n over {a, A, space, tab, CR, LF} as submission, under all 16 flag
+    combinations, against (i) its own normal form as expected string and (ii) the normal form of another string of the scope"""
+    n = 4 if (scale >= 3 or ctx.get('broken')) else 3
+    alphabet = ['a', 'A', ' ', '\t', '\r', '\n']
+    scope = ['']
+    layer = ['']
+    for _ in range(n):
+        layer = [x + c for x in layer for c in alphabet]
+        scope += layer
+    cases, stats = [], {}
+    for fi, flags in enumerate(FLAGS):
+        kw = dict(zip(FLAG_NAMES, flags))
+        nfs = [normal_forms(flags, x) for x in scope]
+        for i, sub in enumerate(scope):
+            if len(nfs[i]) == 1:
+                add_call({'kind': 'match', 'config': kw, 'expect': next(iter(nfs[i])), 'sub': sub}, res, cases, stats)
+            j = (i * 31 + 7 * fi + 11) % len(scope)
+            other = sorted(nfs[j])[0]
+            add_call({'kind': 'match', 'config': kw, 'expect': other, 'sub': sub}, res, cases, stats)
+    res.distribution['small_scope'] = {'alphabet': alphabet, 'max_length': n, 'strings': len(scope), 'flag_combinations': 16,
+                                       'calls': dict(stats)}
+    emit(cases, res, 'c18_scope', 'call_case', shard=max(300, len(cases) // 14 + 1))
+
+
 def minimum_strings(rng, L, W):
     """submissions around the two minimums: lengths L-1, L, L+1 and word counts W-1, W, W+1, plus whitespace shapes"""
     out = ['', ' ', '  ', 'a', ' a ', 'a b', 'a  b', 'a\tb', 'a\r\nb c', ' a b c ', 'ab cd ef']
@@ -585,14 +619,14 @@ def run_minimums(ctx, res, rng, scale):
                                   [(True, False), (False, True), (True, True)]))
     k = 0
     for L, W, ex, (aa, ane) in grid:
-        nflags = 2 if scale <= 1 else 4
+        nflags = 2 if scale < 3 else 4
         for j in range(nflags):
             flags = FLAGS[(k * 7 + j * 5 + 3) % 16] if j else (True, True, False, True)
             k += 1
             kw = dict(zip(FLAG_NAMES, flags))
             kw.update({'accept_any': aa, 'accept_nonempty': ane, 'min_length': L, 'min_words': W, 'explain_minimums': ex})
             subs = minimum_strings(rng, L, W)
-            if scale <= 1:
+            if scale < 3:
                 subs = [s for i, s in enumerate(subs) if (i + k) % 2 == 0 or len(s) in (L - 1, L)]
             for s in subs:
                 add_call({'kind': 'minimums', 'config': kw, 'expect': None, 'sub': s}, res, cases, stats)
@@ -678,7 +712,7 @@ def run_validation(ctx, res, rng, scale):
                     if not ok:
                         continue
                     expect = ok[k % len(ok)]
-                chosen = subs if scale > 1 else [s for i, s in enumerate(subs) if (i + k) % 2 == 0 or s in full]
+                chosen = subs if scale >= 3 else [s for i, s in enumerate(subs) if (i + k) % 2 == 0 or s in full]
                 for s in chosen:
                     add_call({'kind': 'validation', 'config': kw, 'expect': expect, 'sub': s}, res, cases, stats)
     res.distribution['validation_calls'] = dict(stats)
@@ -830,7 +864,7 @@ def run(ctx):
     if ctx['tier'] == 'thorough':
         scale = 6.0
     elif ctx['escalate']:
-        scale = 2.0
+        scale = 1.5
     res.rule = ('one case per distinct (configuration, expected string, submission); non-trivial = the property makes a definite '
                 'demand on it (cases whose verdict depends on how a run of alternating CR/LF is read as line breaks are skipped by '
                 'the oracle, still compared with the model); clean_input cases count when cleaning changes the string; regex cases '
@@ -838,11 +872,14 @@ def run(ctx):
     check_unicode_tables(res)
     run_clean(ctx, res, rng, scale)
     run_match(ctx, res, rng, scale)
+    run_small_scope(ctx, res, rng, scale)
     run_minimums(ctx, res, rng, scale)
     run_validation(ctx, res, rng, scale)
     run_check_response(ctx, res, rng, scale)
     run_regex(ctx, res, rng, scale)
     res.distribution['scale'] = scale
+    # witnesses that do not fit the narrow characterisation of a recorded defect are reported first
+    res.witnesses.sort(key=lambda w: w.get('finding') is not None)
     return res
 
 
